@@ -131,3 +131,65 @@ func VerifH_C17_d_mem() {
 	again, err2 := target.Get([]byte{k0})
 	vAssert("owned/get-hands-out-a-copy", err2 == nil && len(again) == 2 && again[0] == v0)
 }
+
+// H-C17-e-mem: iteration over the memory backend has the semantics every backend must have (the table wrapper
+// and every rawdb range scan — UTXO set, lockups, address index — depend on it): NewIterator(prefix, start)
+// yields exactly the stored keys that carry the prefix and are not below prefix‖start, each once, in ascending
+// byte order, with the value stored under it. Two entries with arbitrary two-byte keys (first byte one of two
+// prefixes), an arbitrary one-byte start (or none), iteration under one of the prefixes or under the empty
+// prefix.
+func VerifH_C17_e_mem() {
+	db := New(nil)
+	k1 := []byte{0x50 + vU8("k1Prefix")%2, vU8("k1")}
+	k2 := []byte{0x50 + vU8("k2Prefix")%2, vU8("k2")}
+	vAssume(k1[0] != k2[0] || k1[1] != k2[1])
+	db.Put(k1, []byte{1})
+	db.Put(k2, []byte{2})
+	var prefix, start []byte
+	if vBool("withPrefix") {
+		prefix = []byte{0x50 + vU8("iterPrefix")%2}
+	}
+	if vBool("withStart") {
+		start = []byte{vU8("start")}
+	}
+	lower := append(append([]byte{}, prefix...), start...)
+	want := func(k []byte) bool {
+		if len(prefix) == 1 && k[0] != prefix[0] {
+			return false
+		}
+		// k >= lower in byte order (lower has 0..2 bytes, k has 2)
+		for i := 0; i < len(lower); i++ {
+			if k[i] != lower[i] {
+				return k[i] > lower[i]
+			}
+		}
+		return true
+	}
+	less := func(a, b []byte) bool { return a[0] < b[0] || (a[0] == b[0] && a[1] < b[1]) }
+	it := db.NewIterator(prefix, start)
+	var gotK [][]byte
+	var gotV []byte
+	for it.Next() {
+		gotK = append(gotK, append([]byte{}, it.Key()...))
+		gotV = append(gotV, it.Value()[0])
+	}
+	it.Release()
+	vReach("iterated")
+	n := 0
+	if want(k1) {
+		n++
+	}
+	if want(k2) {
+		n++
+	}
+	vAssert("iterate/exactly-the-matching-keys", len(gotK) == n)
+	for i, k := range gotK {
+		is1 := k[0] == k1[0] && k[1] == k1[1]
+		is2 := k[0] == k2[0] && k[1] == k2[1]
+		vAssert("iterate/only-stored-matching-keys", (is1 && want(k1)) || (is2 && want(k2)))
+		vAssert("iterate/value-belongs-to-key", (is1 && gotV[i] == 1) || (is2 && gotV[i] == 2))
+		if i > 0 {
+			vAssert("iterate/ascending-order", less(gotK[i-1], k))
+		}
+	}
+}
